@@ -73,6 +73,9 @@ type Exec struct {
 	entryProbes []Probe
 	revealed    map[string]bool
 	lateProbes  []*Clause
+	rootFVs     []Val          // the root function's free variables (pointers to the captured cells), when it is a closure
+	spawning    bool           // applyContract is checking a `go` statement: preconditions and frame, no postconditions
+	extraVars   map[string]Val // captured variables of the closure being spawned, by name
 }
 
 // lateProbeValues evaluates the probes that mention locals in the given environment.
@@ -522,8 +525,14 @@ func (x *Exec) VerifyRoot() ([]*Obligation, error) {
 	}
 	var fvs []Val
 	for _, fv := range fn.FreeVars {
-		fvs = append(fvs, x.freshVal(fv.Type(), "fv_"+fv.Name(), st, reach))
+		v := x.freshVal(fv.Type(), "fv_"+fv.Name(), st, reach)
+		// a captured variable lives in a cell of the enclosing function: its address is never nil
+		if len(v.L) == 1 {
+			x.sc.Assert(fmt.Sprintf("(and (> %s 0) (< %s %s))", v.L[0], v.L[0], a0))
+		}
+		fvs = append(fvs, v)
 	}
+	x.rootFVs = fvs
 	entry := st.clone()
 	entry.frozen = true
 	f := x.newFrame(fn, params, fvs, 0, "")
